@@ -804,15 +804,23 @@ package ggql
 //@ spec isColl(v interface{}) bool = is(v, map[string]interface{}) || is(v, []interface{})
 //@ -- a copy that shares no list or object with the original (so coercing the copy in place cannot reach the schema)
 //@ func dupValue
-//@   props C03 C04
+//@   props C03 C04 C12
 //@   check panic {C03}
 //@   ensures[object-copied] is(v, map[string]interface{}) ==> is(res, map[string]interface{}) && asMap(res) != nil && fresh(asMap(res))
 //@   ensures[list-copied] is(v, []interface{}) ==> is(res, []interface{}) && fresh(as(res, []interface{}))
 //@   ensures[scalar-kept] !isColl(v) ==> res == v
+//@   ensures[list-elements-copied] is(v, []interface{}) ==> len(as(res, []interface{})) == len(as(v, []interface{})) && (forall i int {as(res, []interface{})[i]} :: 0 <= i && i < len(as(v, []interface{})) ==> (isColl(as(v, []interface{})[i]) ==> as(res, []interface{})[i] != as(v, []interface{})[i]) && (!isColl(as(v, []interface{})[i]) ==> as(res, []interface{})[i] == as(v, []interface{})[i]))
+//@   ensures[object-members-copied] is(v, map[string]interface{}) ==> (forall k string {asMap(res)[k]} :: has(asMap(v), k) ==> has(asMap(res), k) && (isColl(asMap(v)[k]) ==> asMap(res)[k] != asMap(v)[k]) && (!isColl(asMap(v)[k]) ==> asMap(res)[k] == asMap(v)[k]))
+//@   ensures[copy-differs] isColl(v) ==> res != v
 //@   decreases valH(v)
 //@   use valHMap(asMap(v))
 //@   assigns fresh
+//@   loop 0: invariant[own-map] m != nil && fresh(m)
+//@           invariant[domain] forall k string {indomain(0, k)} :: indomain(0, k) <==> has(asMap(v), k)
+//@           invariant[members] forall k string {seen(0, k)} :: seen(0, k) ==> has(m, k) && (isColl(asMap(v)[k]) ==> m[k] != asMap(v)[k]) && (!isColl(asMap(v)[k]) ==> m[k] == asMap(v)[k])
 //@   loop 1: use valHList(as(v, []interface{}), rangeindex+1)
+//@           invariant[own-list] fresh(a) && len(a) == len(as(v, []interface{})) && rangeindex+1 <= len(a)
+//@           invariant[elements] forall j int {a[j]} :: 0 <= j && j <= rangeindex ==> (isColl(as(v, []interface{})[j]) ==> a[j] != as(v, []interface{})[j]) && (!isColl(as(v, []interface{})[j]) ==> a[j] == as(v, []interface{})[j])
 //@ func (*Input).CoerceIn
 //@   props C04
 //@   check panic {C03}
